@@ -1,14 +1,14 @@
 (* C08 — the property theorems about the loader model. *)
 From Coq Require Import List NArith ZArith Bool Lia.
-From LTV Require Import Common.Bytes Params_gen.
+From LTV Require Import Common.Bytes.
 From LTV.C07 Require Import Model.
 From LTV.C08 Require Import Model ProofsOrder ProofsLoad ProofsTok ProofsDecode ProofsTotal.
 Import ListNotations.
 Local Open Scope N_scope.
 
-Definition params_ok : bool :=
-  (Params.c08_piece_length_min =? 1024) && (Params.c08_piece_length_max =? 536870912) &&
-  (Params.c08_hash_size =? 20).
+(* the policy of the code as it is today satisfies the side condition of the theorems; the run
+   checks policy_ok on the policy PROBED from the compiled implementation (harness --params) *)
+Definition params_ok : bool := policy_ok default_policy && (hash_size =? 20).
 Lemma params_ok_now : params_ok = true.
 Proof. vm_compute. reflexivity. Qed.
 
@@ -18,9 +18,10 @@ Definition has_info (b : value) : Prop :=
 
 Section Main.
 Variable H : bytes -> bytes.
+Variable pol : policy.
 
 (* everything the later theorems need, extracted from one inversion of [load] *)
-Lemma load_inv : forall b u d, load H b u = LOk d ->
+Lemma load_inv : forall b u d, load H pol b u = LOk d ->
   valid_comp (d_name d) = true /\
   files_ok (d_files d) (d_size d) /\
   d_chunks d = size_chunks_of (d_size d) (d_chunk_size d) /\
@@ -146,7 +147,7 @@ Qed.
 (* every file the download will ever open: its frozen path is  root' / c1 / ... / ck  where
    root' = set_root_dir(root) and c1..ck resolve strictly inside root' *)
 Theorem paths_contained : forall b u d root f,
-  load H b u = LOk d -> In f (d_files d) ->
+  load H pol b u = LOk d -> In f (d_files d) ->
   frozen_path (set_root_dir root) f = set_root_dir root ++ path_as_string (f_path f) /\
   strictly_inside (f_path f) /\ strictly_inside [d_name d].
 Proof.
@@ -168,7 +169,7 @@ Qed.
 (* the STRING handed to the kernel is walked as: the root's own components, then exactly the
    file's components (no '/' inside a component re-splits, no NUL truncates) *)
 Theorem frozen_tokens : forall b u d root f,
-  load H b u = LOk d -> In f (d_files d) ->
+  load H pol b u = LOk d -> In f (d_files d) ->
   tokens (frozen_path (set_root_dir root) f) = tokens (set_root_dir root) ++ f_path f /\
   mem_byte 0 (path_as_string (f_path f)) = false.
 Proof.
@@ -180,11 +181,11 @@ Proof.
 Qed.
 
 Theorem no_dup_no_prefix : forall b u d,
-  load H b u = LOk d -> no_prefix (map f_path (d_files d)).
+  load H pol b u = LOk d -> no_prefix (map f_path (d_files d)).
 Proof. intros b u d Hl. destruct (load_inv _ _ _ Hl) as (_ & Fo & _). destruct Fo; assumption. Qed.
 
 Theorem sizes_sum : forall b u d,
-  load H b u = LOk d ->
+  load H pol b u = LOk d ->
   offsets_from 0 (d_files d) /\ sum_size (d_files d) = d_size d /\
   (int64_ok b = true -> d_size d < two63) /\ (d_meta d = false -> d_size d <> 0).
 Proof.
@@ -195,7 +196,7 @@ Qed.
 (* the piece count is the exact ceiling, fits 32 bits, and 'pieces' holds exactly one 20-byte
    hash per piece: none of the uint32/uint64 operations of the code wraps *)
 Theorem piece_count_matches : forall b u d,
-  int64_ok b = true -> load H b u = LOk d ->
+  int64_ok b = true -> load H pol b u = LOk d ->
   d_chunk_size d <> 0 /\ d_size d < two63 /\
   d_chunks d = (d_size d + d_chunk_size d - 1) / d_chunk_size d /\
   d_chunks d < two32 /\
@@ -217,7 +218,7 @@ Qed.
 
 (* every file's piece range is exact as well (File::set_range does not wrap) *)
 Theorem file_ranges_exact : forall b u d f,
-  int64_ok b = true -> load H b u = LOk d -> In f (d_files d) ->
+  int64_ok b = true -> load H pol b u = LOk d -> In f (d_files d) ->
   f_r1 f = f_offset f / d_chunk_size d /\
   f_r2 f = (if f_size f =? 0 then f_offset f / d_chunk_size d
             else (f_offset f + f_size f + d_chunk_size d - 1) / d_chunk_size d) /\
@@ -249,7 +250,7 @@ Proof.
 Qed.
 
 Theorem infohash_canonical : forall b u d m,
-  load H b u = LOk d -> as_map b = LOk m -> has_key_map m k_info = true ->
+  load H pol b u = LOk d -> as_map b = LOk m -> has_key_map m k_info = true ->
   exists info_v, get_key m k_info = LOk info_v /\
     (d_meta d = false -> d_infohash d = H (enc info_v)) /\
     (d_meta d = true -> d_infohash d = d_pieces d).
@@ -260,14 +261,14 @@ Proof.
 Qed.
 
 Theorem unordered_rejected : forall b d m,
-  as_map b = LOk m -> has_key_map m k_info = true -> load H b true <> LOk d.
+  as_map b = LOk m -> has_key_map m k_info = true -> load H pol b true <> LOk d.
 Proof.
   intros b d m Em Hi Hl.
   destruct (load_inv _ _ _ Hl) as (_ & _ & _ & _ & _ & _ & _ & _ & _ & _ & _ & Hh).
   destruct (Hh m Em Hi) as [X _]. discriminate.
 Qed.
 
-Theorem infohash_never_zero : forall b u d, load H b u = LOk d -> d_infohash d <> zero_hash.
+Theorem infohash_never_zero : forall b u d, load H pol b u = LOk d -> d_infohash d <> zero_hash.
 Proof. intros b u d Hl. destruct (load_inv _ _ _ Hl) as (_ & _ & _ & _ & _ & _ & _ & _ & _ & Hz & _). exact Hz. Qed.
 
 End Main.
@@ -277,9 +278,10 @@ End Main.
    has int64 integers) and the unordered flag is the per-dictionary one. *)
 Section Bytes.
 Variable H : bytes -> bytes.
+Variable pol : policy.
 
-Lemma load_bytes_inv : forall s d, load_bytes H s = Some (LOk d) ->
-  exists b rest, decode_f s = Ok b rest /\ load H (erase b) (info_flag b) = LOk d /\ int64_ok (erase b) = true.
+Lemma load_bytes_inv : forall s d, load_bytes H pol s = Some (LOk d) ->
+  exists b rest, decode_f s = Ok b rest /\ load H pol (erase b) (info_flag b) = LOk d /\ int64_ok (erase b) = true.
 Proof.
   intros s d Hl. unfold load_bytes in Hl.
   destruct (decode_f s) as [b rest| | |] eqn:E; try discriminate.
@@ -287,7 +289,7 @@ Proof.
 Qed.
 
 Theorem piece_count_matches_bytes : forall s d,
-  load_bytes H s = Some (LOk d) ->
+  load_bytes H pol s = Some (LOk d) ->
   d_chunk_size d <> 0 /\ d_size d < two63 /\
   d_chunks d = (d_size d + d_chunk_size d - 1) / d_chunk_size d /\
   d_chunks d < two32 /\
@@ -298,12 +300,12 @@ Proof.
 Qed.
 
 Theorem sizes_sum_bytes : forall s d,
-  load_bytes H s = Some (LOk d) ->
+  load_bytes H pol s = Some (LOk d) ->
   offsets_from 0 (d_files d) /\ sum_size (d_files d) = d_size d /\ d_size d < two63 /\
   (d_meta d = false -> d_size d <> 0).
 Proof.
   intros s d Hl. destruct (load_bytes_inv _ _ Hl) as (b & rest & _ & Hload & Hi).
-  destruct (sizes_sum H _ _ _ Hload) as (A & B & C & D). auto.
+  destruct (sizes_sum H pol _ _ _ Hload) as (A & B & C & D). auto.
 Qed.
 
 (* an info dictionary that is unordered ANYWHERE inside (its own keys, or any dictionary nested
@@ -312,7 +314,7 @@ Theorem unordered_rejected_bytes : forall s m u rest im iu d,
   decode_f s = Ok (FMap m u) rest ->
   flookup k_info m = Some (FMap im iu) ->
   any_flag (FMap im iu) = true ->
-  load_bytes H s <> Some (LOk d).
+  load_bytes H pol s <> Some (LOk d).
 Proof.
   intros s m u rest im iu d Hd Hk Hany Hl.
   unfold load_bytes in Hl. rewrite Hd in Hl. injection Hl as Hl.
@@ -320,17 +322,17 @@ Proof.
   { eapply closed_flookup; [eapply decode_f_closed; exact Hd | exact Hk]. }
   rewrite (closed_any_flag _ Hc) in Hany. simpl in Hany. subst iu.
   unfold info_flag in Hl. rewrite Hk in Hl.
-  eapply (unordered_rejected H (erase (FMap m u)) d (emap m)); [reflexivity | | exact Hl].
+  eapply (unordered_rejected H pol (erase (FMap m u)) d (emap m)); [reflexivity | | exact Hl].
   unfold has_key_map. rewrite lookup_emap, Hk. reflexivity.
 Qed.
 
 (* nothing outside "info" matters: the loader sees the erased tree and info's own flag only (by
    definition of load_bytes); and the loader on bytes is total *)
-Theorem load_total_bytes : forall s r,
-  load_bytes H s = Some r -> (exists d, r = LOk d) \/ r = LErr EInput \/ r = LErr EBencode.
+Theorem load_total_bytes : forall s r, policy_ok pol = true ->
+  load_bytes H pol s = Some r -> (exists d, r = LOk d) \/ r = LErr EInput \/ r = LErr EBencode.
 Proof.
-  intros s r Hl. unfold load_bytes in Hl. destruct (decode_f s) as [b rest| | |]; try discriminate.
-  injection Hl as <-. destruct (ProofsTotal.load_total_cases H (erase b) (info_flag b)) as [[d E]|[E|E]]; rewrite E; eauto.
+  intros s r Hpol Hl. unfold load_bytes in Hl. destruct (decode_f s) as [b rest| | |]; try discriminate.
+  injection Hl as <-. destruct (ProofsTotal.load_total_cases H pol (erase b) (info_flag b) Hpol) as [[d E]|[E|E]]; rewrite E; eauto.
 Qed.
 
 End Bytes.
@@ -343,41 +345,41 @@ Definition H0 (_ : bytes) : bytes := repeat 1 20.
 Definition mk_single (len pl : Z) (pieces : bytes) : value :=
   VMap [(k_info, VMap [(k_length, VInt len); (k_name, VStr [120]); (k_piece_length, VInt pl); (k_pieces, VStr pieces)])].
 
-Example regress_piece_count_wrap : load H0 (mk_single 8796093022208 2048 []) false = LErr EInput.
+Example regress_piece_count_wrap : load H0 default_policy (mk_single 8796093022208 2048 []) false = LErr EInput.
 Proof. vm_compute. reflexivity. Qed.
-Example regress_pieces_surplus : load H0 (mk_single 100 2048 (repeat 17 60)) false = LErr EBencode.
+Example regress_pieces_surplus : load H0 default_policy (mk_single 100 2048 (repeat 17 60)) false = LErr EBencode.
 Proof. vm_compute. reflexivity. Qed.
-Example regress_pieces_ragged : load H0 (mk_single 100 2048 (repeat 17 21)) false = LErr EBencode.
+Example regress_pieces_ragged : load H0 default_policy (mk_single 100 2048 (repeat 17 21)) false = LErr EBencode.
 Proof. vm_compute. reflexivity. Qed.
 
 Definition magnet_zero : bytes :=
   magnet_prefix ++ [120;116;61] ++ urn_btih ++ repeat 65 32.     (* magnet:?xt=urn:btih:AAAA...A *)
-Example regress_zero_hash : forall H, load_uri H magnet_zero = LErr EInput.
-Proof. intro H. vm_compute. reflexivity. Qed.
+Example regress_zero_hash : forall H rf, load_uri H (mkPolicy 1024 536870912 rf) magnet_zero = LErr EInput.
+Proof. intros H rf. vm_compute. reflexivity. Qed.
 
 (* non-vacuity examples *)
-Example ex_single_loads : exists d, load H0 (mk_single 100 2048 (repeat 17 20)) false = LOk d /\ d_chunks d = 1.
+Example ex_single_loads : exists d, load H0 default_policy (mk_single 100 2048 (repeat 17 20)) false = LOk d /\ d_chunks d = 1.
 Proof. eexists. split; vm_compute; reflexivity. Qed.
 
 Definition mk_multi (files : list (Z * list bytes)) : value :=
   VMap [(k_info, VMap [(k_files, VList (map (fun f => VMap [(k_length, VInt (fst f)); (k_path, VList (map VStr (snd f)))]) files));
                        (k_name, VStr [116]); (k_piece_length, VInt 2048); (k_pieces, VStr (repeat 17 20))])].
 
-Example ex_multi_loads : exists d, load H0 (mk_multi [(10%Z, [[97];[98]]); (20%Z, [[99]])]) false = LOk d /\ d_multi d = true /\ length (d_files d) = 2%nat.
+Example ex_multi_loads : exists d, load H0 default_policy (mk_multi [(10%Z, [[97];[98]]); (20%Z, [[99]])]) false = LOk d /\ d_multi d = true /\ length (d_files d) = 2%nat.
 Proof. eexists. split; [vm_compute; reflexivity|]. split; reflexivity. Qed.
 
-Example ex_dotdot_rejected : load H0 (mk_multi [(10%Z, [[46;46];[98]])]) false = LErr EInput.
+Example ex_dotdot_rejected : load H0 default_policy (mk_multi [(10%Z, [[46;46];[98]])]) false = LErr EInput.
 Proof. vm_compute. reflexivity. Qed.
-Example ex_prefix_rejected : load H0 (mk_multi [(10%Z, [[97];[98]]); (1%Z, [[122]]); (20%Z, [[97]])]) false = LErr EInput.
+Example ex_prefix_rejected : load H0 default_policy (mk_multi [(10%Z, [[97];[98]]); (1%Z, [[122]]); (20%Z, [[97]])]) false = LErr EInput.
 Proof. vm_compute. reflexivity. Qed.
-Example ex_unordered_rejected : load H0 (mk_single 100 2048 (repeat 17 20)) true = LErr EInput.
+Example ex_unordered_rejected : load H0 default_policy (mk_single 100 2048 (repeat 17 20)) true = LErr EInput.
 Proof. vm_compute. reflexivity. Qed.
 (* d 8:announce 1:x 4:info d ... e e with the top-level keys swapped (info before announce): loads *)
 Definition bytes_of_single : bytes :=
   [100; 52;58;105;110;102;111; 100; 54;58;108;101;110;103;116;104; 105;49;48;48;101; 52;58;110;97;109;101; 49;58;120;
    49;50;58;112;105;101;99;101;32;108;101;110;103;116;104; 105;50;48;52;56;101; 54;58;112;105;101;99;101;115; 50;48;58] ++ repeat 17 20 ++ [101;
    49;58;97; 105;49;101; 101].
-Example ex_outside_unordered_loads : exists d, load_bytes H0 bytes_of_single = Some (LOk d) /\
+Example ex_outside_unordered_loads : exists d, load_bytes H0 default_policy bytes_of_single = Some (LOk d) /\
   (exists b r, decode_f bytes_of_single = Ok b r /\ fflag b = true /\ info_flag b = false).
 Proof. eexists. split; [vm_compute; reflexivity|]. eexists. eexists. split; [vm_compute; reflexivity|]. split; reflexivity. Qed.
 
@@ -389,5 +391,5 @@ Definition h_example : bytes := [0;16;131;16;81;135;32;146;139;48;211;143;65;20;
 Example ex_base32 : parse_base32_sha1 (map (fun c => c) [65;66;67;68;69;70;71;72;73;74;75;76;77;78;79;80;81;82;83;84;85;86;87;88;89;90;50;51;52;53;54;55])
   = Some ([0;68;50;20;199;66;84;182;53;207;132;101;58;86;215;198;117;190;119;223], []).
 Proof. vm_compute. reflexivity. Qed.
-Example ex_magnet_b32_loads : exists d, load_uri H0 (magnet_prefix ++ [120;116;61] ++ urn_btih ++ repeat 66 32) = LOk d /\ d_meta d = true.
+Example ex_magnet_b32_loads : exists d, load_uri H0 default_policy (magnet_prefix ++ [120;116;61] ++ urn_btih ++ repeat 66 32) = LOk d /\ d_meta d = true.
 Proof. eexists. split; vm_compute; reflexivity. Qed.
